@@ -72,3 +72,12 @@ Theorem C20_history_reads_do_not_mutate : forall c pre o, read_only o ->
   fst (fst (step (fst (exec (init c) pre)) o)) = fst (fst (exec (init c) pre)).
 Proof. exact history_reads_do_not_mutate. Qed.
 Print Assumptions C20_history_reads_do_not_mutate.
+
+(* ---- T17: the sources this property rests on keep no state outside the objects the model has (no static locals
+   or mutable globals in C, no class-level / module-level containers, `global` rebinding or cache decorators in
+   Python): the list of such sites, regenerated from the sources on every run, is empty *)
+From Coq Require Import String List.
+From DRF Require Import Gen.StateSites Proofs.StateSitesProofs.
+Theorem C20_no_state_outside_the_modelled_objects : state_sites_metadata = @nil string /\ state_sites_listing = @nil string /\ state_sites_rf_python = @nil string.
+Proof. repeat split; first [exact no_state_outside_objects_metadata | exact no_state_outside_objects_listing | exact no_state_outside_objects_rf_python]. Qed.
+Print Assumptions C20_no_state_outside_the_modelled_objects.
